@@ -86,7 +86,7 @@ def _install():
 def cases(tier, seed, prep=None):
     n = 300 if tier == "quick" else 9000
     kinds = ["responsive", "responsive", "silent", "silent", "slow-then-silent", "cut-then-responsive", "close",
-             "responsive", "silent", "silent-again"]
+             "responsive", "silent", "silent-again", "responsive-paused"]
     out = [{"seed": seed * 1000003 + 1600000 + i, "kind": kinds[i % len(kinds)], "bulk": i % len(kinds) in (7, 8)} for i in range(n)]
     for i in range(24 if tier == "quick" else 600):
         out.append({"seed": seed * 1000003 + 1650000 + i, "kind": "cut-then-responsive", "nflaps": [5, 8, 12, 20][i % 4]})
@@ -204,6 +204,18 @@ def run_case(spec):
             if not sch.step():
                 r.rightNow = t_end
                 break
+    paused_app = None
+    if kind == "responsive-paused":
+        # the Leader's own application stops reading one of its subchannels for a while (back-pressure towards
+        # the peer): the Follower keeps answering every ping, the Leader just does not read the answers
+        kind = "responsive"
+        fl2 = RecFactory(dp, "%s.accept3" % fol)
+        dp.dw[fol].listener_for("quiet").listen(fl2)
+        got2 = []
+        dp.dw[lead].connector_for("quiet").connect(RecFactory(dp, "%s.open3" % lead)).addCallback(got2.append)
+        sch.run(400, until=lambda: bool(got2))
+        if got2:
+            paused_app = got2[0]
     again = None
     if kind == "silent-again":
         # the generation that replaced a silent connection goes silent too (1-3 times in a row)
@@ -258,6 +270,14 @@ def run_case(spec):
         dp.a.close()
         dp.b.close()
         run_until(horizon)
+    elif paused_app is not None:
+        run_until(t_conn + rng.random() * 3 * x)
+        paused_app.transport.pauseProducing()
+        t_pause = r.seconds()
+        run_until(t_pause + rng.choice([0.5, 1.5, 2.5, 4, 7]) * x)
+        paused_for = r.seconds() - t_pause
+        paused_app.transport.resumeProducing()
+        run_until(max(horizon, r.seconds() + 4 * x))
     else:
         run_until(horizon)
     t_end = r.seconds()
@@ -332,15 +352,21 @@ def run_case(spec):
                 viol.append({"key": "C16/silent-peer-dropped-too-late/again", "msg": "replacement connection: last sign of life t=%.3f, dropped at t=%.3f (x=%s)" % (ref2, dropped_at, x), "witness": wit()})
             if not reconnected:
                 viol.append({"key": "C16/no-new-generation-after-drop/again", "msg": "the replacement connection was dropped at t=%.3f but the pair is %s/%s at t=%.3f" % (dropped_at, dp.mstate(lead), dp.mstate(fol), t_end), "witness": wit()})
-    if kind in ("responsive", "cut-then-responsive", "close") and slow_rtt:
+    if kind in ("responsive", "cut-then-responsive", "close") and slow_rtt and paused_app is None:
         return_inconclusive = "harness premise broken: a pong took %.3f s >= x=%s" % (max(slow_rtt), x)
     else:
         return_inconclusive = None
     if kind in ("responsive", "cut-then-responsive", "close") and not return_inconclusive:
         # every ping was answered within one interval, so the monitor must never drop
         if drops:
-            viol.append({"key": "C16/responsive-peer-dropped", "msg": "leader dropped the connection at t=%s although every pong arrived within %.3f s < x=%s" % (
-                [round(t, 3) for t in drops], max(lat_log) if lat_log else 0.0, x), "witness": wit()})
+            key = "C16/responsive-peer-dropped"
+            if paused_app is not None and all(t >= t_pause - 1e-9 for t in drops):
+                # one mechanism, keyed on its own: the Leader's application paused reading, the Follower kept answering
+                key = "C16/responsive-peer-dropped/leader-application-paused-reading"
+            viol.append({"key": key, "msg": "leader dropped the connection at t=%s although every pong arrived within %.3f s < x=%s%s" % (
+                [round(t, 3) for t in drops], max(lat_log) if lat_log else 0.0, x,
+                (" (the Leader's own application had paused a subchannel from t=%.3f for %.2f intervals)" % (t_pause, paused_for / x)) if paused_app is not None else ""),
+                "witness": wit()})
         responsive_intervals = int((t_end - t_conn) / x)
         if kind == "cut-then-responsive" and cuts:
             # monitoring resumes on the next connection
@@ -371,6 +397,7 @@ def run_case(spec):
     return {"violations": viol, "nontrivial": nontrivial,
             "counters": {"pongs": len(pongs), "pings": len([1 for (t, w, e) in ev_l if w == "ping"]), "silent_cases_dropped": silent_dropped,
                          "responsive_intervals": responsive_intervals, "drops": len(drops), "cuts": cuts, "kind_" + kind: 1, "repeated_silent_episodes": len(episodes) if (kind == "silent" and again) else 0,
+                         "leader_app_paused_cases": int(paused_app is not None),
                          "bulk_cases": int(bulk is not None), "bulk_bytes_written": bulk.written if bulk else 0,
                          "pings_sent_while_outbound_paused": paused_pings[0]},
             "sample": {"spec": spec, "x": x, "leader": lead, "pongs": len(pongs), "drops": [round(t, 3) for t in drops], "t0": t0,
